@@ -172,10 +172,8 @@ Print Assumptions C06_deleted_leaves_by_pos.
     any number of additions - dead slots, empty roots written over, a remap - followed by Undo with the
     block's addition count and the previous roots returns to a state consistent with the forest before
     the block (so every observable - roots, leaf count, positions, hashes, proofs - is the previous one,
-    by the read-side theorems of C09/C10), and this composes to any depth.  Blocks with deletions: the
-    single steps of undoDeletion are proved, the theorem for the whole loop is in progress; the general
-    statement was decided by computation on every forest of <= 5 slots (partial) / 7 slots (full) and is
-    validated by the correspondence run after every undo. *)
+    by the read-side theorems of C09/C10), and this composes to any depth.  General blocks (with
+    deletions): Proofs/MapMutUndo2.v, theorems further below. *)
 From Utreexo Require Import Base.Hash Spec.Forest Model.MapRead Model.MapMut Proofs.MapReadSpec
      Proofs.MapMutAdd Proofs.MapMutUndo.
 Open Scope N_scope.
@@ -222,3 +220,72 @@ Theorem C06_map_forest_undo_depth_k :
       ms_n m' = N.of_nat (length s) /\ ms_total m' = ms_total m /\ ms_full m' = ms_full m.
 Proof. exact undo_adds_depth. Qed.
 Print Assumptions C06_map_forest_undo_depth_k.
+
+(** ** GENERAL blocks (Proofs/MapMutUndo2.v): deletions of any remembered leaves (siblings, subtrees,
+    whole trees) followed by additions (empty roots written over, remap), then Undo with that block's
+    addition count, proof, deleted hashes and the previous roots: the mirror returns to a state
+    consistent with the forest BEFORE the block - same roots and leaf count, and by the read-side
+    theorems the same position for every tracked leaf and byte-identical proofs.  Full and partial
+    forests, any allocated height.  (On a partial forest "stores nothing beyond what is allowed" after
+    an Undo is validated by the correspondence run and by exhaustive computation, not proved.) *)
+From Utreexo Require Import Spec.Oracle Proofs.MapMutUnify2 Proofs.MapMutUndo2.
+
+Theorem C06_map_forest_general_block_then_undo :
+  forall (H : Type) (HO : ops H), ops_ok HO ->
+  (forall x y, op_eqb HO (op_hash2 HO x y) (op_empty HO) = false) ->
+  forall (s : slots H) (R : list H) (m : mstate H) (adds : list (H * bool)) (dels : list H)
+         (ts : list N) (pf : list H),
+    MapMutAdd.Inv H HO s R m -> MapMutUnify2.nimage HO s -> MapMutUnify2.dels_ok s R dels ->
+    exp_prove HO (mk_ctx HO s) dels = Some (ts, pf) ->
+    N.of_nat (length s) + N.of_nat (length adds) <= 2 ^ 63 ->
+    MapMutAdd.adds_ok H HO (kill HO dels s) (filter (fun h => negb (memH HO h dels)) R) (ms_full m) adds ->
+    MapMutUnify2.noimg H HO adds ->
+    exists m1 m2,
+      mm_modify HO m adds dels ts pf = Some m1 /\
+      mm_undo HO m1 (N.of_nat (length adds)) ts pf dels (roots HO s) = Some m2 /\
+      consistent HO s R m2 /\ getRoots HO m2 = roots HO s /\ ms_n m2 = ms_n m /\
+      ms_total m <= ms_total m2 /\ ms_full m2 = ms_full m.
+Proof. exact modify_undo_block. Qed.
+Print Assumptions C06_map_forest_general_block_then_undo.
+
+(** Undo alone from any state in the invariant of the post-block forest: the remembered set becomes
+    (previous minus the undone additions) plus the re-instated deleted leaves *)
+Theorem C06_map_forest_undo_general_block :
+  forall (H : Type) (HO : ops H), ops_ok HO ->
+  (forall x y, op_eqb HO (op_hash2 HO x y) (op_empty HO) = false) ->
+  forall (s : slots H) (dels adds : list H) (ts : list N) (pf R1 : list H) (m1 : mstate H),
+    NoDup (live s) -> leaves_ok H HO s -> NoDup dels ->
+    exp_prove HO (mk_ctx HO s) dels = Some (ts, pf) ->
+    UInv HO (apply_block HO s dels adds) R1 m1 ->
+    exists m2 R2,
+      mm_undo HO m1 (N.of_nat (length adds)) ts pf dels (roots HO s) = Some m2 /\
+      UInv HO s R2 m2 /\ (forall x, In x R2 <-> (In x R1 /\ ~ In x adds) \/ In x dels) /\
+      ms_n m2 = N.of_nat (length s) /\ ms_total m2 = ms_total m1 /\ ms_full m2 = ms_full m1.
+Proof. exact undo_block. Qed.
+Print Assumptions C06_map_forest_undo_general_block.
+
+(** "This composes: undoing the last k blocks in reverse order restores the state k blocks ago" *)
+Theorem C06_map_forest_k_blocks_then_k_undos :
+  forall (H : Type) (HO : ops H), ops_ok HO ->
+  (forall x y, op_eqb HO (op_hash2 HO x y) (op_empty HO) = false) ->
+  forall (bs : list (list H * list (H * bool))) (s : slots H) (R : list H) (m : mstate H),
+    MapMutAdd.Inv H HO s R m -> MapMutUnify2.nimage HO s -> hist_ok H HO (ms_full m) s R bs ->
+    exists mk m0,
+      run_blocks H HO s bs m = Some mk /\
+      undo_blocks H HO s (map (erase H) bs) mk = Some m0 /\
+      consistent HO s R m0 /\ getRoots HO m0 = roots HO s /\ ms_n m0 = ms_n m /\
+      ms_total m <= ms_total m0 /\ ms_full m0 = ms_full m.
+Proof. exact modify_undo_blocks. Qed.
+Print Assumptions C06_map_forest_k_blocks_then_k_undos.
+
+Theorem C06_map_forest_undo_k_blocks :
+  forall (H : Type) (HO : ops H), ops_ok HO ->
+  (forall x y, op_eqb HO (op_hash2 HO x y) (op_empty HO) = false) ->
+  forall (bs : list (list H * list H)) (s : slots H) (R : list H) (m : mstate H),
+    blocks_ok H HO s bs -> UInv HO (apply_blocks H HO s bs) R m ->
+    exists m' R',
+      undo_blocks H HO s bs m = Some m' /\ consistent HO s R' m' /\
+      (forall x, In x R' <-> Rback H bs (fun x0 => In x0 R) x) /\
+      getRoots HO m' = roots HO s /\ ms_n m' = num_leaves s.
+Proof. exact undo_blocks_consistent. Qed.
+Print Assumptions C06_map_forest_undo_k_blocks.
